@@ -615,11 +615,19 @@ def main(tier, seed):
         for tup in itertools.product(range(len(tags)), repeat=n):
             mal.append([tags[i] for i in tup])
     mlines = ['x,1', '1', '1,2']
-    batch.add_malformed('malformed', mal, mlines)
+    # complete argument frames with ill-typed / unknown content: these reach the retry loop
+    frames = []
+    for k in (1, 2):
+        for tys in itertools.product((1, 5, 9, 0, -1, 6, 7), repeat=k):
+            for qc in (['I', 0], ['I', -1], ['I', 2], ['L', 0], ['$', '']):
+                for pc in (['$', 'p'], ['I', 0]):
+                    for sc in (['I', 0], ['I', 7], ['$', '']):
+                        frames.append([['L', 5], sc, pc, qc] + [['I', t] for t in tys] + [['I', k]])
+    batch.add_malformed('malformed', mal + frames, mlines)
     batch.run()
     ctx.rule.append(f'malformed: every stack of <= {3 if quick else 4} cells over {len(tags)} cells (counts 0,1,2,-1, '
-                    f'type ids 5,9, LONG / SINGLE / STRING cells in INTEGER positions, short stacks)')
-    ctx.sample({'suite': 'malformed', 'case': 'stack (bottom->top) ' + json.dumps(mal[len(mal) // 3])})
+                    f'type ids 5,9, LONG / SINGLE / STRING cells in INTEGER positions, short stacks) + {len(frames)} complete frames of 1..2 variables with type ids from 1,5,9,0,-1,6,7 and ill-typed flag / prompt cells')
+    ctx.sample({'suite': 'malformed', 'case': 'stack (bottom->top) ' + json.dumps(frames[len(frames) // 3])})
 
     # ---- compiled programs
     run_compiled(ctx, orc, exe, exe_num, reps, quick)
